@@ -494,6 +494,36 @@ Definition get_req (v : val) : option req :=
   | _ => None
   end.
 
+(* ------------------------------------------------------------------ raisers whose message is built from configuration
+   data or a request header inside a fixed format: PredicateMismatch of a multiview (the view name) and of a
+   predicated view ('... %s (%s)' % (function name, predicate texts)), HTTPForbidden of the secured-view deriver,
+   BadCSRFOrigin (prefix ++ origin ++ suffix, with its own explanation).  [msite_gen] uses the formats
+   regenerated from the source (the fmt_ constants of Gen/Facts_C19.v), [msite_ref] the hand-written ones. *)
+Fixpoint format_s (fmt : text) (args : list text) : text :=
+  match fmt with
+  | 37 :: 115 :: r => match args with a :: rest => a ++ format_s r rest | [] => 37 :: 115 :: format_s r [] end
+  | c :: r => c :: format_s r args
+  | [] => []
+  end.
+Definition n_HTTPForbidden : text := [72; 84; 84; 80; 70; 111; 114; 98; 105; 100; 100; 101; 110].
+Definition n_HTTPBadRequest : text := [72; 84; 84; 80; 66; 97; 100; 82; 101; 113; 117; 101; 115; 116].
+Definition s_fmt_pm : text := [112; 114; 101; 100; 105; 99; 97; 116; 101; 32; 109; 105; 115; 109; 97; 116; 99; 104; 32; 102; 111; 114; 32; 118; 105; 101; 119; 32; 37; 115; 32; 40; 37; 115; 41].
+Definition s_fmt_unauthorized : text := [85; 110; 97; 117; 116; 104; 111; 114; 105; 122; 101; 100; 58; 32; 37; 115; 32; 102; 97; 105; 108; 101; 100; 32; 112; 101; 114; 109; 105; 115; 115; 105; 111; 110; 32; 99; 104; 101; 99; 107].
+Definition s_csrf_prefix : text := [79; 114; 105; 103; 105; 110; 32; 99; 104; 101; 99; 107; 105; 110; 103; 32; 102; 97; 105; 108; 101; 100; 32; 45; 32].
+Definition s_csrf_suffix : text := [32; 100; 111; 101; 115; 32; 110; 111; 116; 32; 109; 97; 116; 99; 104; 32; 97; 110; 121; 32; 116; 114; 117; 115; 116; 101; 100; 32; 111; 114; 105; 103; 105; 110; 115; 46].
+Definition s_csrf_explanation : text := [66; 97; 100; 32; 67; 83; 82; 70; 32; 79; 114; 105; 103; 105; 110; 46; 32; 65; 99; 99; 101; 115; 115; 32; 105; 115; 32; 100; 101; 110; 105; 101; 100; 46; 32; 84; 104; 105; 115; 32; 115; 101; 114; 118; 101; 114; 32; 99; 97; 110; 32; 110; 111; 116; 32; 118; 101; 114; 105; 102; 121; 32; 116; 104; 97; 116; 32; 116; 104; 101; 32; 111; 114; 105; 103; 105; 110; 32; 111; 114; 32; 114; 101; 102; 101; 114; 114; 101; 114; 32; 111; 102; 32; 121; 111; 117; 114; 32; 114; 101; 113; 117; 101; 115; 116; 32; 109; 97; 116; 99; 104; 101; 115; 32; 116; 104; 101; 32; 99; 117; 114; 114; 101; 110; 116; 32; 115; 105; 116; 101; 46; 32; 69; 105; 116; 104; 101; 114; 32; 121; 111; 117; 114; 32; 98; 114; 111; 119; 115; 101; 114; 32; 115; 117; 112; 112; 108; 105; 101; 100; 32; 116; 104; 101; 32; 119; 114; 111; 110; 103; 32; 79; 114; 105; 103; 105; 110; 32; 111; 114; 32; 82; 101; 102; 101; 114; 114; 101; 114; 32; 111; 114; 32; 105; 116; 32; 100; 105; 100; 32; 110; 111; 116; 32; 115; 117; 112; 112; 108; 121; 32; 111; 110; 101; 32; 97; 116; 32; 97; 108; 108; 46].
+Definition msite_with (pm un pre suf ex : text) (name : text) (args : list text) : option (text * text * option text) :=
+  if text_eqb name [112; 109; 95; 109; 117; 108; 116; 105] then match args with [n] => Some (n_HTTPNotFound, n, None) | _ => None end
+  else if text_eqb name [112; 109; 95; 115; 105; 110; 103; 108; 101] then match args with [fn; p] => Some (n_HTTPNotFound, format_s pm [fn; p], None) | _ => None end
+  else if text_eqb name [102; 111; 114; 98; 105; 100; 100; 101; 110] then match args with [fn] => Some (n_HTTPForbidden, format_s un [fn], None) | _ => None end
+  else if text_eqb name [99; 115; 114; 102; 95; 111; 114; 105; 103; 105; 110] then match args with [o] => Some (n_HTTPBadRequest, pre ++ o ++ suf, Some ex) | _ => None end
+  else None.
+Definition msite_gen := msite_with fmt_predicate_mismatch fmt_unauthorized fmt_csrf_origin_prefix fmt_csrf_origin_suffix
+                                   fmt_csrf_origin_explanation.
+Definition msite_ref := msite_with s_fmt_pm s_fmt_unauthorized s_csrf_prefix s_csrf_suffix s_csrf_explanation.
+Definition input_of_m (m : text * text * option text) (environ : list (text * text)) (ofs : list text) : input :=
+  mkInput (fst (fst m)) (Some (snd (fst m))) None (snd m) [] [] environ None ofs.
+
 (* ext = [formatter?; content_type kw?; charset kw?], formatter = [[key; source] ...]
    case = [cls; detail?; comment?; explanation?; location; headers; environ; body_template?; offers; ext]
    answer = [model; spec; spec_type]
@@ -522,6 +552,12 @@ Definition run_C19 (v : val) : val :=
         olet g := site_gen site in olet f := site_ref site in
         Some (VL [put_res (model (input_of (g rq) en ofs)); put_res (spec (input_of (f rq) en ofs));
                   VT (spec_type (input_of (f rq) en ofs))])
+    | VL [site; args; en; ofs; VI 0%Z] =>
+        (* message-site case = [site name; [args]; environ; offers; 0] *)
+        olet site := get_text site in olet args := get_texts args in olet en := get_pairs en in olet ofs := get_texts ofs in
+        olet g := msite_gen site args in olet f := msite_ref site args in
+        Some (VL [put_res (model (input_of_m g en ofs)); put_res (spec (input_of_m f en ofs));
+                  VT (spec_type (input_of_m f en ofs))])
     | VL [c; d; cm; ex; loc; hs; tm; steps; ext] =>
         olet c := get_text c in olet d := get_opt get_text d in olet cm := get_opt get_text cm in
         olet ex := get_opt get_text ex in olet loc := get_text loc in olet hs := get_pairs hs in
